@@ -21,6 +21,7 @@ def tasks(tier, seed):
         func("bt.core.SecurityBase.transact"),
         func("bt.core.SecurityBase.outlay"),
         func("bt.core.StrategyBase.adjust"),
+        func("bt.core.StrategyBase.allocate"),      # capital moved between a parent and a sub-strategy: the parent is debited exactly what the child is credited, whatever their kinds
         func("bt.core.CouponPayingSecurity.update"),
         # mark-to-market: every security class is marked to position x price x multiplier and stays in its parent's update loop while a position is open
         func("bt.core.SecurityBase.update"),
